@@ -18,7 +18,7 @@ import (
 // the border-box constraints of a box with an auto width be compared, unreduced, with its content width.
 func c10BoxSizingStores(c *core.Check) {
 	p := c.Prog
-	r := c.Rule("R14", "resolvePercentages: each of width, min-width, max-width, height, min-height, max-height is reduced by the box-sizing delta of its own axis whenever that delta is positive, whatever the other sizes are: the store is reached for either outcome of every test inside the `delta > 0` region that is not a test of the stored field itself", 6)
+	r := c.Rule("R14", "resolvePercentages: each of width, min-width, max-width, height, min-height, max-height is reduced by the box-sizing delta of its own axis whenever that delta is positive, whatever the other sizes are: the store is reached for either outcome of every test inside the `delta > 0` region that is not a test of the stored field itself", 4)
 	fn := p.Fn("html/layout", "resolvePercentages")
 	if fn == nil {
 		r.Anchor("html/layout.resolvePercentages")
